@@ -84,7 +84,9 @@ int hawk_tio_fini (hawk_tio_t* tio)
 {
 	int ret = 0;
 
-	hawk_tio_flush (tio); /* don't care about the result */
+	/* don't care about the result. but don't let it replace the error of a failed
+	 * attachment with EINVAL when no output has ever been attached */
+	if (tio->out.fun) hawk_tio_flush (tio);
 	if (detach_in (tio, 1) <= -1) ret = -1;
 	if (detach_out (tio, 1) <= -1) ret = -1;
 
